@@ -34,7 +34,13 @@ func runC07(c *Ctx) {
 	fn := core.FuncName(up)
 	// R07.1
 	rps, complete := core.ReturnPaths(c.P, up, 5000)
-	if !complete || len(up.Params) != 1 {
+	nreply := 0
+	for _, pa := range up.Params {
+		if isNamed(pa.Type(), core.ModulePath+"/common", "ProbeResponse") {
+			nreply++
+		}
+	}
+	if !complete || nreply != 1 {
 		R.Fail("R07.1", fn+"#enumeration", up.Pos(), fn, "update closure could not be enumerated completely: undecided")
 		return
 	}
@@ -144,13 +150,69 @@ func runC07(c *Ctx) {
 	}
 	R.Exhaustive = true
 	R.Extra["abstract_cases"] = cases
-	// R07.2 receiver must-pass-through
-	sites := closureCallSites(c.P, e.Fn, up)
-	R.Floor("R07.2:update-call-sites", len(sites), 1)
-	for i, cs := range sites {
-		g := cs.Parent()
-		gn := core.FuncName(g)
-		key := fmt.Sprintf("%s#merge[%d]", gn, i)
+	// R07.2 receiver must-pass-through. The merge may be reached through wrappers (a callback closure that merges and then cancels
+	// the sender, a method of a table type): mergeFns = the update function plus every function of the scope that calls a merge
+	// function on every path to a normal return.
+	cg := c.P.CallGraph()
+	calleesAt := func(site ssa.CallInstruction) []*ssa.Function {
+		var out []*ssa.Function
+		if n := cg.Nodes[site.Parent()]; n != nil {
+			for _, oe := range n.Out {
+				if oe.Site == site && oe.Callee.Func != nil {
+					out = append(out, oe.Callee.Func)
+				}
+			}
+		}
+		return out
+	}
+	mergeFns := map[*ssa.Function]bool{up: true}
+	isMergeCall := func(in ssa.Instruction) bool {
+		ci, ok := in.(*ssa.Call)
+		if !ok {
+			return false
+		}
+		cs := calleesAt(ci)
+		if len(cs) == 0 {
+			return false
+		}
+		for _, f := range cs {
+			if !mergeFns[f] {
+				return false
+			}
+		}
+		return true
+	}
+	for changed := true; changed; {
+		changed = false
+		for _, g := range e.Scope {
+			if mergeFns[g] || len(g.Blocks) == 0 || hasDriverInvoke(g, "ReceiveProbe") {
+				continue
+			}
+			cut := map[*ssa.BasicBlock]bool{}
+			for _, b := range g.Blocks {
+				for _, in := range b.Instrs {
+					if isMergeCall(in) {
+						cut[b] = true
+					}
+				}
+			}
+			if len(cut) == 0 {
+				continue
+			}
+			all := true
+			for _, b := range g.Blocks {
+				if _, isRet := b.Instrs[len(b.Instrs)-1].(*ssa.Return); isRet && b.Comment != "recover" && !cut[b] && reachAvoiding(g.Blocks[0], b, cut, nil) {
+					all = false
+				}
+			}
+			if all && !cut[g.Blocks[0]] || all {
+				mergeFns[g] = true
+				changed = true
+			}
+		}
+	}
+	nrecvFns := 0
+	for _, g := range e.Scope {
 		var recv *ssa.Call
 		for _, r := range e.RecvSites {
 			if r.Parent() == g {
@@ -158,11 +220,29 @@ func runC07(c *Ctx) {
 			}
 		}
 		if recv == nil {
-			R.Fail("R07.2", key, cs.Pos(), gn, "the update is not called from the function that calls ReceiveProbe")
+			continue
+		}
+		nrecvFns++
+		gn := core.FuncName(g)
+		key := gn + "#merge"
+		cut := map[*ssa.BasicBlock]bool{}
+		var firstSite ssa.Instruction
+		for _, b := range g.Blocks {
+			for _, in := range b.Instrs {
+				if isMergeCall(in) {
+					cut[b] = true
+					if firstSite == nil {
+						firstSite = in
+					}
+				}
+			}
+		}
+		if firstSite == nil {
+			R.Fail("R07.2", key, recv.Pos(), gn, "the function that calls ReceiveProbe never hands a reply to the merge (directly, through a callback or a method)")
 			continue
 		}
 		// success edge of validateProbe and retryable edge
-		var succFrom, succTo, retryFrom, retryTo *ssa.BasicBlock
+		var succTo, retryTo *ssa.BasicBlock
 		for _, b := range g.Blocks {
 			iff, ok := b.Instrs[len(b.Instrs)-1].(*ssa.If)
 			if !ok {
@@ -174,17 +254,16 @@ func runC07(c *Ctx) {
 			}
 			switch {
 			case strings.HasSuffix(shortName(call.Common().StaticCallee()), ".validateProbe"):
-				succFrom, succTo = b, b.Succs[1-tIdx]
+				succTo = b.Succs[1-tIdx]
 			case calleeIs(call, "common.CheckProbeRetryable"):
-				retryFrom, retryTo = b, b.Succs[tIdx]
+				retryTo = b.Succs[tIdx]
 			}
 		}
-		if succFrom == nil || retryFrom == nil {
-			R.Fail("R07.2", key, cs.Pos(), gn, "receiver has no validateProbe / CheckProbeRetryable branch: anchor lost")
+		if succTo == nil || retryTo == nil {
+			R.Fail("R07.2", key, firstSite.Pos(), gn, "receiver has no validateProbe / CheckProbeRetryable branch: anchor lost")
 			continue
 		}
 		loopHead := recv.Block()
-		// find the loop header: the block that dominates recv's block and is reached by a back edge
 		for _, b := range g.Blocks {
 			for _, p := range b.Preds {
 				if b.Dominates(p) && b.Dominates(recv.Block()) {
@@ -192,10 +271,8 @@ func runC07(c *Ctx) {
 				}
 			}
 		}
-		// from the success edge, can we get back to the loop head (or to any return) while avoiding the update call's block?
-		cut := map[*ssa.BasicBlock]bool{cs.Block(): true}
 		skip := false
-		if succTo != cs.Block() {
+		if !cut[succTo] {
 			if reachAvoiding(succTo, loopHead, cut, nil) {
 				skip = true
 			}
@@ -205,21 +282,47 @@ func runC07(c *Ctx) {
 				}
 			}
 		}
-		R.Check(!skip, "R07.2", key, cs.Pos(), gn, "every path from an accepted+validated reply to the next iteration passes through the update", "an accepted and validated reply can reach the next iteration (or a return) without being merged")
-		// the update call must precede any other use: it is in the success block chain and the update happens before writerCancel - not required
-		// retry edge never reaches the update without a new ReceiveProbe
+		R.Check(!skip, "R07.2", key, firstSite.Pos(), gn, "every path from an accepted+validated reply to the next iteration passes through the merge", "an accepted and validated reply can reach the next iteration (or a return) without being merged")
 		cut2 := map[*ssa.BasicBlock]bool{recv.Block(): true}
-		leak := retryTo != recv.Block() && reachAvoiding(retryTo, cs.Block(), cut2, nil)
-		R.Check(!leak, "R07.2", key+"/retry-no-store", cs.Pos(), gn, "the retryable edge leads back to ReceiveProbe without a merge", "a retryable (skipped) packet can reach the merge")
-		_ = succFrom
+		leak := false
+		for b := range cut {
+			if retryTo != recv.Block() && reachAvoiding(retryTo, b, cut2, nil) {
+				leak = true
+			}
+		}
+		R.Check(!leak, "R07.2", key+"/retry-no-store", firstSite.Pos(), gn, "the retryable edge leads back to ReceiveProbe without a merge", "a retryable (skipped) packet can reach the merge")
 	}
-	// R07.3 lockset on the table inside the update closure; spawner reads after Wait
+	R.Floor("R07.2:receiving-functions", nrecvFns, 1)
+	// R07.3 lockset on the table inside the update function; everything else touches it only before the spawn or after Wait
+	touches := func(in ssa.Instruction) bool {
+		var addr ssa.Value
+		switch x := in.(type) {
+		case *ssa.Store:
+			addr = x.Addr
+		case *ssa.UnOp:
+			addr = x.X
+		default:
+			return false
+		}
+		switch a := addr.(type) {
+		case *ssa.IndexAddr:
+			return e.isTable(c.P, a.X)
+		case *ssa.FieldAddr:
+			return e.TableFields[fieldKeyOf(a)]
+		case *ssa.Alloc:
+			return a == allocOfSlice(c, e)
+		}
+		return false
+	}
 	la := core.NewLockAnalysis(c.P)
-	la.Collect(up, "", nil)
-	tbl := core.VarName(allocOfSlice(c, e))
+	recvObj := ""
+	if up.Signature.Recv() != nil {
+		recvObj = "recv"
+	}
+	la.Collect(up, recvObj, nil)
 	nacc := 0
 	for _, a := range la.Accesses {
-		if a.Obj != tbl {
+		if !touches(a.Instr) {
 			continue
 		}
 		nacc++
@@ -244,7 +347,7 @@ func runC07(c *Ctx) {
 		lg.StopAt[up] = true
 		lg.Collect(g, "", nil)
 		for _, a := range lg.Accesses {
-			if a.Obj != tbl || a.Fn == up {
+			if !touches(a.Instr) || a.Fn == up {
 				continue
 			}
 			gn := core.FuncName(a.Fn)
@@ -262,7 +365,7 @@ func runC07(c *Ctx) {
 				}
 				R.Check(before || after, "R07.3", fmt.Sprintf("%s#table-access@%s", gn, kindRW(a.Write)), a.Instr.Pos(), gn, "engine touches the table only before the spawn or after g.Wait()", "engine touches the slot table while the goroutines run and outside the mutex")
 			} else {
-				R.Check(len(a.Locks) > 0, "R07.3", fmt.Sprintf("%s#table-access", gn), a.Instr.Pos(), gn, "under the mutex", "goroutine touches the slot table directly, outside the update closure's mutex")
+				R.Check(len(a.Locks) > 0, "R07.3", fmt.Sprintf("%s#table-access", gn), a.Instr.Pos(), gn, "under the mutex", "goroutine touches the slot table directly, outside the update function's mutex")
 			}
 		}
 	}
